@@ -96,6 +96,8 @@ def glue_part(chk, classes, which, oracle):
             cache["r"] = oracle()
         return cache["r"]
 
+    chk.default_found = found
+
     for cls in classes:
         try:
             _wrappers.entry_points(chk, ex, cls, which, found=found)
@@ -103,3 +105,42 @@ def glue_part(chk, classes, which, oracle):
             chk.undecided.append(("%s glue" % cls, "unsupported construct in glue: %s" % e))
     chk.assumptions.update(glue.ASSUMED)
     chk.trusted.append("front end B (skv/pyexec.py): symbolic execution of the Python subset, re-parsed from the tree under test every run")
+
+
+PARAM_FIELDS = {"width", "depth", "uint_maxval", "max_count", "num_reserved", "base", "p", "seed", "m", "max_key_len", "phi", "alpha", "threshold", "bias_data", "raw_estimate", "args", "buckets", "rand_nums"}
+
+
+def field_stability(chk, ex):
+    """class invariant: no public method reassigns a parameter field (so every reachable object
+    has the parameter fields its constructor gave it)"""
+    from . import _wrappers
+
+    k1 = _wrappers.key_sym("k1")
+    value = Sym(z3.Int("value"), "int")
+    ngram = Sym(z3.Int("ngram"), "int")
+    for cls in ("CountMinLinear", "CountMinLog16", "CountMinLog8", "HyperLogLog", "HeavyHitters"):
+        a, objs, _ = good_objects(ex, cls, "fs")
+        sref, st0 = objs[0]
+        b, others, _ = good_objects(ex, cls, "fs", st=st0.fork())
+        oref, st1 = others[0]
+        calls = [("add", [k1, value]), ("add_ngram", [k1, ngram]), ("update", [[k1]]), ("update_ngram", [[k1], ngram]), ("merge", [oref]), ("save", [Sym(z3.Int("fn"), "str")]), ("attach_existing_shm", [Sym(z3.Int("nm"), "str")])]
+        if cls != "HyperLogLog":
+            calls += [("__getitem__", [k1]), ("n_added", []), ("n_records", [])]
+        if cls != "HeavyHitters":
+            calls += [("query", [k1] if cls != "HyperLogLog" else [])]
+        else:
+            calls += [("query", [Sym(z3.Int("k"), "int")])]
+        for meth, args in calls:
+            st = st1.fork()
+            st.pc += [value.t >= 0, value.t < 2**64, ngram.t >= 1, ngram.t < 2**63, X.BYTESLEN(k1.t) >= 0]
+            try:
+                outs = call_method(ex, st, sref, meth, args)
+            except X.Unsupported as e:
+                chk.undecided.append(("%s.%s" % (cls, meth), "unsupported construct in glue: %s" % e))
+                continue
+            bad = set()
+            for o, eff in outs:
+                for e in eff:
+                    if e[0] in ("setattr", "delattr") and e[1] in (sref.oid, oref.oid) and e[2] in PARAM_FIELDS:
+                        bad.add(e[2])
+            _wrappers.row(chk, "%s.%s:does-not-reassign-parameter-fields" % (cls, meth), not bad, sorted(bad))
